@@ -722,6 +722,13 @@ func (r *FnRun) makeInterface(st *State, v Val, t types.Type) Val {
 		r.declareFun(unbox, []Sort{SInt}, SInt)
 		id = r.define("iface", App(box, SInt, p.Ref))
 		r.assume(And(Gt(id, IntLit(0)), Eq(App(unbox, SInt, id), p.Ref), Eq(App("dtype", SInt, id), IntLit(int64(code)))))
+		if r.decl["top0"] {
+			// the identity of an interface holding a pointer is as old as the
+			// object: boxing something allocated during this call never yields
+			// an interface value that existed at entry, and vice versa
+			t0 := Term{"top0", SInt}
+			r.assume(Eq(Gt(p.Ref, t0), Gt(id, t0)))
+		}
 	} else if tm, ok := v.(Term); ok && tm.Sort == SInt && !r.bv {
 		box := fmt.Sprintf("ibox_%d", code)
 		unbox := fmt.Sprintf("iunbox_%d", code)
@@ -730,8 +737,11 @@ func (r *FnRun) makeInterface(st *State, v Val, t types.Type) Val {
 		id = r.define("iface", App(box, SInt, tm))
 		r.assume(And(Gt(id, IntLit(0)), Eq(App(unbox, SInt, id), tm), Eq(App("dtype", SInt, id), IntLit(int64(code)))))
 	} else {
+		// a composite value put into an interface: a new box (identity model;
+		// Go's == on such interfaces compares contents, the model does not)
 		id = r.fresh("iface", SInt)
-		r.assume(And(Gt(id, IntLit(0)), Eq(App("dtype", SInt, id), IntLit(int64(code)))))
+		r.assume(And(Eq(id, Add(st.top, IntLit(1))), Eq(App("dtype", SInt, id), IntLit(int64(code)))))
+		st.top = id
 	}
 	return IfaceVal{T: id, Dyn: t, Inner: v}
 }
